@@ -28,6 +28,10 @@ type c19Case struct {
 	// Zone (track mode): the offset in seconds of the process's local time zone (time.Local) while
 	// the track is written and read; the format's times are UTC whatever the zone of the machine.
 	Zone int `json:"zone,omitempty"`
+	// Prev (track mode): the Encoder is not fresh - it has written another track before (into a
+	// buffer that was emptied since): 1 = one fix on the date of this track's first fix, 2 = one fix
+	// on the day before. What an Encoder wrote earlier is no part of what it writes now.
+	Prev int `json:"prev,omitempty"`
 }
 
 // JSON form of a case: lines that are not valid UTF-8 are stored as bytes (see splitText).
@@ -148,6 +152,9 @@ func c19Plain(lines []string, m *ref.IGCModel) bool {
 		return false
 	}
 	for i, l := range lines {
+		if len(l) > 200 {
+			return false // no line the encoder writes is that long (a line scanner may give up on 64 KiB)
+		}
 		switch {
 		case i == 0 && strings.HasPrefix(l, "A"):
 		case strings.HasPrefix(l, "HFDTE"), strings.HasPrefix(l, "B"):
@@ -170,7 +177,7 @@ func c19Exec(c *engine.Ctx, cs c19Case, onState func(key string)) {
 		var t *igc.T
 		var err error
 		fail := func(what, desc string) {
-			c.Violate("decode/"+what, fmt.Sprintf("%s; file %q", desc, text), "c19", cs)
+			c.Violate("decode/"+what, fmt.Sprintf("%s; file %q", desc, clipStr(text, 1500)), "c19", cs)
 		}
 		if p, stack := engine.Guard(func() { t, err = igc.Read(strings.NewReader(text)) }); p != nil {
 			last := ""
@@ -424,6 +431,25 @@ func c19Run(c *engine.Ctx) {
 			}
 		}
 	})
+	// (B3) over-long records: one line of 65535, 65536, 70000 and 2^20 bytes (a fix with trailing
+	// bytes, a comment, bytes that are no record at all) first after the opening, between two fixes
+	// and as the last line with and without a final newline - beyond the 64 KiB token limit of a
+	// default line scanner. The result is still a track of whole fixes and record errors.
+	for _, n := range []int{65535, 65536, 70000, 1 << 20} {
+		for _, head := range []string{"B1101035206345N00006200WA0058900560", "LXXX", "\x80"} {
+			long := head + strings.Repeat("9", n-len(head))
+			fix1, fix2 := "B1101015206343N00006198WA0058700558", "B1101025206344N00006199WA0058800559"
+			for _, lines := range [][]string{
+				{"AXXX001", "HFDTE150785", long, fix1, fix2},
+				{"AXXX001", "HFDTE150785", fix1, long, fix2},
+				{"AXXX001", "HFDTE150785", fix1, fix2, long},
+				{long},
+			} {
+				c.Count("over_long_records", 1)
+				c19Exec(c, c19Case{Mode: "lines", Lines: lines, CRLF: n%2 == 0}, note)
+			}
+		}
+	}
 	c.Count("states", int64(len(seen)))
 	// (C) the scanner must not depend on how the reader splits the bytes
 	c19Exec(c, c19Case{Mode: "split", Lines: []string{"AXXX001", "HFDTE150785", "I013637LAD", "B1101015206343N00006198WA005870055812", "B1101025206344N00006199WA005880055934", "LXXX"}, CRLF: true}, nil)
@@ -547,7 +573,14 @@ func c19Run(c *engine.Ctx) {
 		tracks = append(tracks, tr)
 	}
 	c.Note("tracks", len(tracks))
-	c.Parallel(len(tracks), func(i int) { c19Exec(c, c19Case{Mode: "track", Track: tracks[i]}, nil) })
+	c.Parallel(len(tracks), func(i int) {
+		c19Exec(c, c19Case{Mode: "track", Track: tracks[i]}, nil)
+		// every third track also through an Encoder that has written before (same day / day before)
+		if i%3 != 2 {
+			c.Count("tracks_through_a_used_encoder", 1)
+			c19Exec(c, c19Case{Mode: "track", Track: tracks[i], Prev: 1 + i%3}, nil)
+		}
+	})
 	// the same tracks on a machine whose local time zone is not UTC (+5:45 and -9:30: a zone with
 	// minutes shifts the date for some fixes and the minute for all of them)
 	savedLocal := time.Local
@@ -556,7 +589,7 @@ func c19Run(c *engine.Ctx) {
 		time.Local = time.FixedZone("verif", zone)
 		c.Parallel(len(tracks), func(i int) {
 			c.Count("tracks_in_another_zone", 1)
-			c19Exec(c, c19Case{Mode: "track", Track: tracks[i], Zone: zone}, nil)
+			c19Exec(c, c19Case{Mode: "track", Track: tracks[i], Zone: zone, Prev: ((i+zone/100)%3 + 3) % 3}, nil)
 		})
 	}
 	time.Local = savedLocal
@@ -582,6 +615,9 @@ func c19Track(c *engine.Ctx, cs c19Case) {
 	}
 	t0 := time.Unix(int64(cs.Track[0][3]), 0).UTC()
 	fail := func(what, desc string) {
+		if cs.Prev != 0 {
+			what += "/used-encoder"
+		}
 		zone := ""
 		if cs.Zone != 0 {
 			zone = fmt.Sprintf(" with the local time zone %+d s from UTC", cs.Zone)
@@ -593,7 +629,16 @@ func c19Track(c *engine.Ctx, cs c19Case) {
 	var err error
 	var back *igc.T
 	if p, _ := engine.Guard(func() {
-		err = igc.NewEncoder(&buf, igc.A("XXX001")).Encode(geom.NewLineStringFlat(geom.Layout(5), flat))
+		enc := igc.NewEncoder(&buf, igc.A("XXX001"))
+		if cs.Prev != 0 {
+			first := append([]float64{}, flat[:5]...)
+			if cs.Prev == 2 {
+				first[3] -= 86400
+			}
+			_ = enc.Encode(geom.NewLineStringFlat(geom.Layout(5), first))
+			buf.Reset()
+		}
+		err = enc.Encode(geom.NewLineStringFlat(geom.Layout(5), flat))
 	}); p != nil {
 		fail("encode-panic", fmt.Sprintf("panic %v", p))
 		return
